@@ -12,7 +12,9 @@ Ties (real halmos code vs extracted model vs an independent python rendering of 
       leaves under conditions that are contradictory only after refinement), cache on vs off, with the same
       monitor installed inside the halmos process; in sync mode (the solver answers before the engine goes on)
       every test is replayed in the extracted run_test model (c16_test) on the solver replies the
-      implementation saw: outputs, stuck/normal counts, exit code, who skipped the solver, final cache.
+      implementation saw: outputs, stuck/normal counts, exit code, who skipped the solver, final cache;
+      racing projects (two solver workers) are replayed through sched_run (c16_sched) on the schedule
+      of path / look-up / callback events the run went through.
       Invariant projects (contract T + target C, --invariant-depth 1): ONE function context fed by several
       independent runs -- the case in which only halmos' own bookkeeping keeps the conditions of a finished run
       alive.  The H2 monitor there also probes z3's id free list: after a forced collection a batch of fresh terms
@@ -44,8 +46,11 @@ PARTIAL = (
     "CPython reference counting that the Coq model cannot express. It is only MONITORED here (L2 on real "
     "Path objects, L3 inside real halmos runs incl. invariant tests whose function context spans several runs, with forced gc "
     "between paths and a probe of z3's id free list before every query); C16_needs_stability_refuted "
-    "shows it cannot be dropped. Thread interleavings of the solver pool are covered by the event-history "
-    "theorem (C16_sound, C16_transparent_any_state) but the ties run queries sequentially per context. "
+    "shows it cannot be dropped. Thread interleavings of the solver pool are covered by the event-history / any-schedule "
+    "theorems (C16_sound, C16_transparent_any_state, C16_test_transparent_any_schedule); the L1/L2 ties run queries sequentially "
+    "per context, L3 replays in the model the schedule each racing run (two workers) actually went through, as linearised by one "
+    "lock held around every look-up and every callback (the instrumentation serialises look-ups against callbacks; it does not "
+    "choose the order). "
     "The two semantics of C16_test_sound/_transparent (query as posed vs after refine()) are section variables related "
     "by `every real valuation is an abstract one`; that halmos' refine() implements exactly that relation is C04's subject. "
     "A consumer of the solver whose code has a shape T-cacheusers does not know (anything but solve_low_level / "
@@ -896,7 +901,7 @@ def run(rep, tier):
         trusted_base=common.TRUSTED_BASE_COMMON + ["the real z3 binary as truthful solver in the L2/L3 ties (cross-checked against enumeration in L2)", "sh + a one-line script as scripted solver in the L1 history tie"],
         assumptions=ASSUMPTIONS,
         partial=PARTIAL,
-        rule="cases: (space) every Unicode code point against \\s and str.split; (parse) solver replies: generated well-formed replies with Unicode white space / optional error line / 0-12 ids, malformed-by-construction replies, single-character mutations (model vs implementation only); (check) random id lists and core lists; (dump) query files; (history) 2-8 queries per function context over a pool of ids denoting literals, scripted solver replies (truthful with correct/empty/missing/odd cores; adversarial; id-reusing), run through the real solve_end_to_end and the real callback with cache on and off, compared step by step with the model from the implementation's own cache state and with the truth table; (tree) random condition trees built with real Path.branch/activate, every leaf serialised by Path.to_smt2 and solved by real z3, gc.collect() between paths, id->sexpr monitor; (e2e) halmos runs on fabricated bytecode projects with cache on and off: a hand-made corpus plus random projects of decision trees over three uint256 arguments whose leaves panic, get STUCK (jump to a symbolic destination) or stop; most trees contain a gadget -- a conjunction contradictory under the real mul/div and satisfiable for the uninterpreted abstraction -- above a subtree over the third argument, so that the same stored core is met again by later assertion and stuck paths in both exploration orders; sync projects (solver answers before the next path) are replayed test by test in the extracted run_test model, one project lets the solver race the engine; invariant projects (test contract + target contract with one setter per tree, depth 1) make one function context span several independent runs, half of them without stuck leaves (a stuck path pins its conditions until the verdict), with the id monitor and the free-list probe on. A history/tree/e2e case is non-trivial when at least one query is answered from the cache; parse cases unless trivially short; distinct by hash of the case",
+        rule="cases: (space) every Unicode code point against \\s and str.split; (parse) solver replies: generated well-formed replies with Unicode white space / optional error line / 0-12 ids, malformed-by-construction replies, single-character mutations (model vs implementation only); (check) random id lists and core lists; (dump) query files; (history) 2-8 queries per function context over a pool of ids denoting literals, scripted solver replies (truthful with correct/empty/missing/odd cores; adversarial; id-reusing), run through the real solve_end_to_end and the real callback with cache on and off, compared step by step with the model from the implementation's own cache state and with the truth table; (tree) random condition trees built with real Path.branch/activate, every leaf serialised by Path.to_smt2 and solved by real z3, gc.collect() between paths, id->sexpr monitor; (e2e) halmos runs on fabricated bytecode projects with cache on and off: a hand-made corpus plus random projects of decision trees over three uint256 arguments whose leaves panic, get STUCK (jump to a symbolic destination) or stop; most trees contain a gadget -- a conjunction contradictory under the real mul/div and satisfiable for the uninterpreted abstraction -- above a subtree over the third argument, so that the same stored core is met again by later assertion and stuck paths in both exploration orders; sync projects (solver answers before the next path) are replayed test by test in the extracted run_test model, one project lets two solver workers race the engine and each other and is replayed through the model's sched_run on the logged schedule of path / look-up / callback events; invariant projects (test contract + target contract with one setter per tree, depth 1) make one function context span several independent runs, half of them without stuck leaves (a stuck path pins its conditions until the verdict), with the id monitor and the free-list probe on. A history/tree/e2e case is non-trivial when at least one query is answered from the cache; parse cases unless trivially short; distinct by hash of the case",
     )
 
 
